@@ -23,7 +23,7 @@ LEVEL_NOTE = "Trusted: Lean kernel + std axioms, harness, generators. Modelled: 
 TECHNIQUE = "Lean 4 proof (frame/preservation lemmas over the slot table, induction over the scans) + differential histories"
 DESIGN_REF = "§5 C11"
 project = WP.make_project(ID)
-relevant_verdict = WP.make_relevant(ID)
+relevant_verdict = WP.make_relevant(ID, also=("C04:delivered-for-request-never-transmitted",))
 
 
 def build_one(exe, rng, idx):
@@ -62,7 +62,11 @@ def build_one(exe, rng, idx):
         if r < 0.25 and h.outstanding:
             # free a slot somewhere in the middle of the table: the cursor will stand right behind it after the next request
             ent = h.outstanding.pop(rng.randrange(len(h.outstanding)))
-            # a reply is only accepted once the request was transmitted
+            # a reply is only accepted once the request was transmitted: sometimes it comes before that (a late answer to an
+            # earlier holder of the identifier would look just like it) and must not be matched against the unsent request
+            if rng.random() < 0.25:
+                h.send("reply %s %s" % (ent[0], h.make_reply(ent, attrs=[]).hex()))
+                h.tag("reply-before-transmission")
             h.send("writer " + sv)
             h.send("reply %s %s" % (ent[0], h.make_reply(ent, attrs=[]).hex()))
         elif r < 0.3:
